@@ -252,7 +252,7 @@ def run_family(family, opts):
     finally:
         _spec.ABSTRACT_RUN = None
     alt = getattr(family, "alt_fn", None)
-    if alt is not None and res.get("status") == "inconclusive":
+    if alt is not None and res.get("status") == "inconclusive" and not getattr(family, "hunt", False):
         f2 = Family(family.key, alt, defd=family.defd, tier=family.tier, functions=family.functions, note=family.note,
                     timeout_ms=family.timeout_ms, hard_s=family.hard_s, structural=family.structural, frame=family.frame)
         if getattr(family, "hunt", False):
@@ -315,6 +315,8 @@ def _run_family(family, opts):
     if getattr(family, "hunt", False):
         timeout_ms = min(timeout_ms, 3000)  # outside the claim: go to the replay lane quickly
     hard_s = family.hard_s or opts.get("hard_s", 300)
+    if getattr(family, "hunt", False):
+        hard_s = min(hard_s, opts.get("hunt_hard_s", 120))  # outside the claim: a bounded bug hunt, not an attempt to decide
     seed = opts.get("seed", 0)
     res = {
         "key": family.key,
